@@ -104,6 +104,11 @@ CHECKS = {
          "Faults: drop / duplicate / retag / redirect (to every other rank, incl. self) one send or one receive, and a dependency closing a cross-rank cycle, at every live communication operation; pairs: the same retag at both ends (cancels: must be accepted), random second faults. Ill-formed (from the description: unmatched, duplicated, self, cyclic) => at least one rank must raise a diagnostic (DistributedPartitionVerificationError family, CycleError, PartitionInducedCycleError, the self-send/receive NotImplementedError); any other exception type, or no exception (then the partition is executed: deadlock / livelock / crash / lost message / silent success reported) is a violation. Well-formed => no rank may raise and execution must reproduce the global reference.",
          "Ranks blocked in a collective after another rank raised are treated as aborted (MPI_Abort). Structurally equal duplicate receives are one node by pytato's value semantics, so injected duplicates are made distinguishable by a tag. All diagnostics observed come from find_distributed_partition's debug checks (python -O is not exercised).",
          "DESIGN.md §3 C10"),
+ "C17": ("exploration",
+         "cross-process differential monitor: the same program texts are handed to 3-6 fresh interpreters with different PYTHONHASHSEED and allocation histories; each emits the canonical kernel description, the C source, the numpy-like Python source and argument lists, per-rank partition summaries and the tag numbering (simulated MPI), each twice; the parent compares byte for byte",
+         "256 (quick) / 4000 (thorough) programs of C01's space and 128 / 2400 multi-rank programs of C08's space per run. Artefacts: kernel description built from the kernel's components (arguments, domains, temporaries, substitution rules, inames+tags, instructions in order with sorted iname/dependency sets), loopy's C text, generate_numpy_like's source plus expected/bound argument names, partition summaries with expression fingerprints for every rank, symbolic->integer tag map and next_tag. Any difference between two processes or between two generations in one process is a violation, classified by the kind of line that differs.",
+         "str(kernel) is not used (loopy prints its own frozensets in set order). Tags that are frozensets are rendered canonically by the harness. loopy's C generation is trusted to be a function of the kernel.",
+         "DESIGN.md §3 C17"),
 }
 
 NOT_YET = {
